@@ -179,6 +179,10 @@ def gammastd(x, nodata, cal_start, cal_stop, a=0, b=0):
         if val >= 0:
             n_valid += 1
 
+    if n_valid == 0:
+        # nothing but nodata and negative values: no index can be computed
+        return np.full_like(x, nodata, dtype="float64")
+
     p_zero = n_zero / n_valid
 
     if p_zero > 0.9:
